@@ -1,1 +1,139 @@
-fn main(){}
+//! replay-curve <g1|g2> <op> <hex field elements...>
+//!
+//! Native replay of coordinate-helper counterexamples (engine M, C11). Field elements are canonical
+//! big-endian hex integers of the prime field Fp; for g2 every element is embedded as Fp2 { c0 = v, c1 = 0 }.
+//! Raw projective points are built through the public `AsMut<blst_p1/p2>` access (no curve check), and
+//! blst's own conversion to affine (`G1Affine::from(&p)` = blst_p1_to_affine) is the ground truth for "the
+//! affine point that a raw triple denotes".
+//!
+//!   jacobian_coordinates X Y Z      -> prints whether (jx/jz^2, jy/jz^3) equals blst's affine point of (X,Y,Z)
+//!   jacobian_coordinates_of_point k -> the same check on the genuine curve point k*G as blst returns it (z != 1)
+//!   new_jacobian x y z              -> prints is_some and, when some, whether blst's affine point of the
+//!                                      result equals (x/z^2, y/z^3)
+//!   new_jacobian_of_point k z       -> Q = k*G; hands the textbook Jacobian triple (qx z^2, qy z^3, z) of Q to
+//!                                      new_jacobian; prints is_some and whether the result equals Q
+//!   ct_eq X1 Y1 Z1 X2 Y2 Z2         -> prints ConstantTimeEq::ct_eq and blst's own equality (PartialEq)
+use ff::Field;
+use group::Group;
+use midnight_curves::bls12_381::Fp2;
+use midnight_curves::{CurveExt, Fp, Fq, G1Affine, G1Projective, G2Affine, G2Projective};
+use subtle::ConstantTimeEq;
+
+fn fp(h: &str) -> Fp {
+    let h = h.trim_start_matches("0x");
+    let padded = format!("{:0>96}", h);
+    let mut le = [0u8; 48];
+    for i in 0..48 {
+        le[47 - i] = u8::from_str_radix(&padded[2 * i..2 * i + 2], 16).expect("hex");
+    }
+    Option::<Fp>::from(Fp::from_bytes_le(&le)).expect("canonical Fp")
+}
+
+fn fp2(h: &str) -> Fp2 {
+    Fp2::new(fp(h), Fp::ZERO)
+}
+
+fn hx(x: &Fp) -> String {
+    let b = x.to_bytes_le();
+    b.iter().rev().map(|v| format!("{:02x}", v)).collect()
+}
+
+fn hx2(x: &Fp2) -> String {
+    format!("({},{})", hx(&x.c0()), hx(&x.c1()))
+}
+
+macro_rules! curve_ops {
+    ($proj:ty, $aff:ty, $raw:ty, $f:ident, $h:ident, $F:ty, $op:expr, $a:expr) => {{
+        let a = $a;
+        let raw_point = |x: $F, y: $F, z: $F| -> $proj {
+            let mut p = <$proj>::identity();
+            let r: &mut $raw = p.as_mut();
+            r.x = x.into();
+            r.y = y.into();
+            r.z = z.into();
+            p
+        };
+        match $op {
+            "jacobian_coordinates" => {
+                let (x, y, z) = ($f(&a[0]), $f(&a[1]), $f(&a[2]));
+                let p = raw_point(x, y, z);
+                let (jx, jy, jz) = p.jacobian_coordinates();
+                let aff = <$aff>::from(&p);
+                let zi = Option::<$F>::from(jz.invert());
+                let ok = match zi {
+                    Some(zi) => aff.x() == jx * zi.square() && aff.y() == jy * zi.square() * zi,
+                    None => false,
+                };
+                println!("jx={} jy={} jz={}", $h(&jx), $h(&jy), $h(&jz));
+                println!("blst_affine=({}, {})", $h(&aff.x()), $h(&aff.y()));
+                println!("jacobian_consistent={}", ok);
+            }
+            "jacobian_coordinates_of_point" => {
+                // a genuine curve point in a non-normalised representation: k*G as blst returns it
+                let k = u64::from_str_radix(a[0].trim_start_matches("0x"), 16).expect("k");
+                let p = <$proj>::generator() * Fq::from(k);
+                let (jx, jy, jz) = p.jacobian_coordinates();
+                let aff = <$aff>::from(&p);
+                let zi = Option::<$F>::from(jz.invert());
+                let ok = match zi {
+                    Some(zi) => aff.x() == jx * zi.square() && aff.y() == jy * zi.square() * zi,
+                    None => false,
+                };
+                println!("z_is_one={}", p.z() == <$F>::ONE);
+                println!("jacobian_consistent={}", ok);
+            }
+            "new_jacobian" => {
+                let (x, y, z) = ($f(&a[0]), $f(&a[1]), $f(&a[2]));
+                let r = <$proj>::new_jacobian(x, y, z);
+                let some = bool::from(r.is_some());
+                println!("is_some={}", some);
+                if some {
+                    let p = r.unwrap();
+                    let aff = <$aff>::from(&p);
+                    let zi = z.invert().unwrap();
+                    let ok = aff.x() == x * zi.square() && aff.y() == y * zi.square() * zi;
+                    println!("affine_matches={}", ok);
+                }
+            }
+            "new_jacobian_of_point" => {
+                let k = u64::from_str_radix(a[0].trim_start_matches("0x"), 16).expect("k");
+                let z = $f(&a[1]);
+                let q = <$proj>::generator() * Fq::from(k);
+                let qa = <$aff>::from(&q);
+                let (x, y) = (qa.x() * z.square(), qa.y() * z.square() * z);
+                let on_jacobian_curve = y.square() == x.square() * x + <$proj as CurveExt>::b() * z.square().square() * z.square();
+                let r = <$proj>::new_jacobian(x, y, z);
+                let some = bool::from(r.is_some());
+                println!("input_satisfies_jacobian_equation={}", on_jacobian_curve);
+                println!("is_some={}", some);
+                println!("equals_point={}", if some { r.unwrap() == q } else { false });
+            }
+            "ct_eq" => {
+                let p = raw_point($f(&a[0]), $f(&a[1]), $f(&a[2]));
+                let q = raw_point($f(&a[3]), $f(&a[4]), $f(&a[5]));
+                println!("ct_eq={}", bool::from(p.ct_eq(&q)));
+                println!("blst_is_equal={}", p == q);
+                let (pa, qa) = (<$aff>::from(&p), <$aff>::from(&q));
+                println!("affine_equal={}", pa.x() == qa.x() && pa.y() == qa.y());
+            }
+            o => println!("err unknown op {}", o),
+        }
+    }};
+}
+
+fn main() {
+    let args: Vec<String> = std::env::args().skip(1).collect();
+    if args.len() < 2 {
+        println!("err usage: <g1|g2> <op> <hex...>");
+        return;
+    }
+    let rest: Vec<String> = args[2..].to_vec();
+    let r = std::panic::catch_unwind(|| match args[0].as_str() {
+        "g1" => curve_ops!(G1Projective, G1Affine, blst::blst_p1, fp, hx, Fp, args[1].as_str(), rest),
+        "g2" => curve_ops!(G2Projective, G2Affine, blst::blst_p2, fp2, hx2, Fp2, args[1].as_str(), rest),
+        t => println!("err unknown curve {}", t),
+    });
+    if r.is_err() {
+        println!("panic");
+    }
+}
